@@ -55,10 +55,24 @@ def cases(draw, backend):
     feat = Features(first=False, index=False, explicit_ttree=False)
     g = QGen(draw, sch, feat)
     fuel = draw(st.integers(1, 2))
-    level = draw(st.sampled_from(["event", "event", "object"]))
+    level = draw(st.sampled_from(["event", "event", "object", "chained"]))
     ncols = draw(st.sampled_from([1, 2, 2, 3, 4]))
     src = dataset_text(sch)
-    if level == "event":
+    chained_cols = None
+    if level == "chained":
+        # a value carried through a chained Select whose second lambda uses its bare argument in several columns
+        os_ = g.objseq([("e", TEvt())], 0)
+        inner, kind = g.num([("j", TObj(os_[1]))], 1)
+        v = "v"
+        scope = [(v, TNum(kind))]
+        ncols = max(ncols, 2)
+        from vf.gen.query import wider as _wider
+        pool = [(v, TNum(kind)), (v, TNum(kind)), (f"({v} * 2)", TNum(_wider(kind, "int"))), (f"({v} > 1)", TNum("bool")), (f"({v} / 2)", TNum("double"))]
+        chained_cols = [draw(st.sampled_from(pool)) for _ in range(ncols)]
+        chained_cols[0] = (v, TNum(kind))
+        chained_cols[-1] = (v, TNum(kind))
+        head = lambda body: f"Select(Select(SelectMany({src}, lambda e: {os_[0]}), lambda j: {inner}), lambda {v}: {body})"
+    elif level == "event":
         v = "e"
         scope = [(v, TEvt())]
         head = lambda body: f"Select({src}, lambda {v}: {body})"
@@ -68,7 +82,7 @@ def cases(draw, backend):
         scope = [(v, TObj(os_[1]))]
         g.f.seq2d = False
         head = lambda body: f"Select(SelectMany({src}, lambda e: {os_[0]}), lambda {v}: {body})"
-    cols = [g.column(scope, fuel) for _ in range(ncols)]
+    cols = chained_cols if chained_cols is not None else [g.column(scope, fuel) for _ in range(ncols)]
     form = draw(st.sampled_from(["bare", "tuple", "list", "dict", "explicit", "explicit", "explicit1"]))
     if form in ("bare", "explicit1") and ncols != 1:
         form = "tuple" if form == "bare" else "explicit"
